@@ -14,7 +14,8 @@ EX_RE = re.compile(r'\(\*\* ([^\n]*?) \*\)\s*\nExample (listing_\d+) : map show 
 MORE = [('GenSplit.v', 'slisting', 'stemplate',
          'superchip unsigned char c, d; superchip unsigned short s, t; superchip unsigned char *p; superchip unsigned char arr[4]; unsigned char a;'),
         ('GenLoops.v', 'llisting', 'ltemplate', 'unsigned char a, b, c, i;'),
-        ('GenIf.v', 'ilisting', None, 'unsigned char a, b, c;')]
+        ('GenIf.v', 'ilisting', None, 'unsigned char a, b, c;'),
+        ('GenCtl.v', 'clisting', None, 'unsigned char a, b, c, i;')]
 
 
 def more_listings():
